@@ -102,7 +102,7 @@ static void do_op(Cmd *c) {
         o("st=-"); if (is_op(c, "destroy_cb")) { o(" "); o_cb(); }
     } else if (is_op(c, "zit_new")) {
         int p = (int)kv_u64(c, "p", 1);
-        if (p < 0 || p >= NSLOT || p == k || !S[k] || !S[p]) { z1 = z2 = -1; o("st=- noobj"); }
+        if (p < 0 || p >= NSLOT || !S[k] || !S[p]) { z1 = z2 = -1; o("st=- noobj"); }
         else { cc_stack_zip_iter_init(&zit, S[k], S[p]); z1 = k; z2 = p; o("st=-"); }
     } else if (!strncmp(c->op, "zit_", 4)) {
         void *o1 = PTR(777777), *o2 = PTR(777777);
